@@ -33,8 +33,20 @@ BUNDLED = [
 ]
 
 
-def write_bytes(defn) -> bytes:
+def write_bytes(defn, via_file=False) -> bytes:
     import lxml.etree as ET
+    if via_file:
+        # the documented way to put a definition into a file; what the file holds is what gets loaded
+        from mc import VERIF_ROOT
+        path = os.path.join(VERIF_ROOT, ".work", f"c09_{os.getpid()}.xml")
+        os.makedirs(os.path.dirname(path), exist_ok=True)
+        try:
+            defn.write_xml(path)
+            with open(path, "rb") as f:
+                return f.read()
+        finally:
+            if os.path.exists(path):
+                os.unlink(path)
     return ET.tostring(defn.to_xml_tree(), xml_declaration=True, encoding="utf-8")
 
 
@@ -52,7 +64,8 @@ def roundtrip_check(t: Tally, label, defn, packets, case, root=None):
     """(i) and (iii) for one definition object.  Returns canon(defn) or None."""
     try:
         c0 = canon_definition(defn)
-        xml = write_bytes(defn)
+        import zlib
+        xml = write_bytes(defn, via_file=zlib.crc32(repr(sorted(case.items(), key=str)).encode()) % 3 == 0)
     except Exception as e:  # noqa: BLE001
         t.violation({"kind": "cannot-write", "exc": type(e).__name__, "built": label}, case, observed=str(e)[:300],
                     note="to_xml_tree() raised for a definition that loads and decodes")
@@ -254,14 +267,14 @@ def attrs_doc():
     conts = [Container("CCSDSPacket", header_entries(), abstract=True)]
     n = 0
     for kind in ("AbsoluteTime", "RelativeTime"):
-        for unit, scale, offset, epoch, ofrom in itertools.product((None, "s"), (None, 0.25), (None, -3.5), (None, "TAI"), (None, "SRC_SEQ_CTR")):
+        for unit, scale, offset, epoch, ofrom in itertools.product((None, "\u00b5s"), (None, 0.25), (None, -3.5), (None, "TAI"), (None, "SRC_SEQ_CTR")):
             n += 1
             # every third time type also has context calibrators on its encoding (next to whatever scale / offset say)
             cc = (CtxCal((Cmp("PKT_APID", "==", "7"),), Poly(((5.0, 0), (2.0, 1)))), CtxCal((Cmp("TYPE", "==", "1"),), Poly(((1.0, 2),)))) if n % 3 == 0 else ()
             pts.append(PType(f"TT{n}", kind, IntEnc(16, ctx_cals=cc) if n % 2 else FloatEnc(32, ctx_cals=cc), unit=unit, scale=scale, offset=offset, epoch=epoch, offset_from=ofrom))
             prs.append(Param(f"TP{n}", f"TT{n}", short=("short %d" % n) if n % 2 else None, long=("long %d" % n) if n % 3 == 0 else None))
     k = 0
-    for abstract, short, long_, crit in itertools.product((False, True), (None, "a short one"), (None, "a long\none"),
+    for abstract, short, long_, crit in itertools.product((False, True), (None, "a short one: 20 \u00b0C"), (None, "a long\none \u2014 temp\u00e9rature"),
                                                           (None, (Cmp("PKT_APID", "==", "7"),), (Cmp("PKT_APID", "==", "8"), Cmp("TYPE", "!=", "1", False)))):
         k += 1
         conts.append(Container(f"K{k}", (("p", f"TP{k}"), ("p", f"TP{k + 30}")), base="CCSDSPacket", criteria=crit, abstract=abstract,
